@@ -13,6 +13,10 @@ from mc.common import Stats
 A_VALUES = [b'', b'x', b'xyz']
 L_VALUES = [0, 2, 7]
 OPS = [('set_a', v) for v in A_VALUES] + [('set_len', v) for v in L_VALUES] + [('del_len',), ('pack',), ('unpack', b'\x02ab')]
+# the tracked value as a mutable buffer the program owns (a bytearray of the same content): a sized value like any other
+OPS_BUF = [('set_a_buf', v) for v in A_VALUES] + [('set_len', 7), ('del_len',), ('pack',), ('unpack', b'\x02ab')]
+BUF_KINDS = ('autolength', 'sub', 'two')
+BUF_PATHS = ('generated', 'generic')
 INITS = [('new', {}), ('new', {'a': b'ab'}), ('new', {'length': 5}), ('new', {'length': 1, 'a': b'abc'}), ('new', {'length': 0, 'a': b'ab'}),
          ('unpack', b'\x01x'), ('unpack', b'\x00')]
 
@@ -146,6 +150,9 @@ def run_history(kind, mod, init, hist):
             if op[0] == 'set_a':
                 tgt.a = op[1]
                 m.a = op[1]
+            elif op[0] == 'set_a_buf':
+                tgt.a = bytearray(op[1])
+                m.a = op[1]
             elif op[0] == 'set_len':
                 tgt.length = op[1]
                 m.enabled, m.explicit = False, op[1]
@@ -195,6 +202,8 @@ def snippet(kind, path, init, hist):
     for op in hist:
         if op[0] == 'set_a':
             lines.append('t.a = %r' % op[1])
+        elif op[0] == 'set_a_buf':
+            lines.append('t.a = bytearray(%r)' % op[1])
         elif op[0] == 'set_len':
             lines.append('t.length = %r' % op[1])
         elif op[0] == 'del_len':
@@ -216,8 +225,14 @@ def _shard(shard, nshards, payload):
             with mk.World() as w:
                 mod = w.module(source(kind, path))
                 st.inc('programs') if shard == 0 else None
-                for d in range(0, depth + (0 if kind in SHALLOW else 1)):
-                    for hist in itertools.product(OPS, repeat=d):
+                plans = [(OPS, range(0, depth + (0 if kind in SHALLOW else 1)))]
+                if kind in BUF_KINDS and path in BUF_PATHS:
+                    plans.append((OPS_BUF, range(1, depth)))
+                for ops, depths in plans:
+                  for d in depths:
+                    for hist in itertools.product(ops, repeat=d):
+                        if ops is OPS_BUF and not any(o[0] == 'set_a_buf' for o in hist):
+                            continue
                         for ii, init in enumerate(INITS):
                             idx += 1
                             if idx % nshards != shard:
@@ -247,7 +262,7 @@ def run(tier):
         'traces_validated_against_impl': st.n.get('histories', 0), 'evaluations': st.n.get('histories', 0),
         'distinct_nontrivial': st.count('states'), 'programs': len(KINDS) * len(CODEPATHS),
         'rule': 'all histories of length 0..%d over %d operations (set a x3, set length x3, del length, pack, unpack) from %d initial states, for %d class kinds (the four positioned ones one level less deep) '
-                'x %d code paths, each on fresh real packets with a bystander packet; after every step attribute reads, pack(), no __dict__, bystander '
+                '(plus, for three kinds on two code paths, histories one shorter in which the tracked value is a bytearray) x %d code paths, each on fresh real packets with a bystander packet; after every step attribute reads, pack(), no __dict__, bystander '
                 'unchanged vs the model (enabled, explicit, a); states = distinct (kind, code path, model state)' % (depth, len(OPS), len(INITS), len(KINDS), len(CODEPATHS)),
         'exhaustive': True, 'bounds': {'depth': depth}, 'distinct_outcomes': st.count('outcomes'), 'samples': st.samples,
     }
